@@ -59,6 +59,7 @@ def gen_history(rng, maxlen):
                 pats = [inst[-1]]                  # remove the most recently added: forces rowid reuse
             spec = rng.choice(pats)
             ops.append({'k': 'remove', 'spec': spec})
+            rm_op = ops[-1]
             gone = set()
             for s in inst:
                 i, v = s.split(':')
@@ -73,6 +74,7 @@ def gen_history(rng, maxlen):
                         gone.add(s)
                         changed = True
             inst = [s for s in inst if s not in gone]
+            rm_op['gone'] = sorted(gone)
         else:
             rows = []
             for i in rng.sample(range(1, 9), rng.randint(1, 4)):
@@ -147,11 +149,18 @@ def _impl(args):
 def residue_tags(sc, installed):
     """tags / pronunciations that lexicons no longer installed attached to external lemmas / forms"""
     out = []
+    # extensions that were removed at some point of the history (even if re-added later: the rows
+    # written by the removed instance are still there and the re-added instance writes them again)
+    removed_once = set()
+    for op in sc['ops']:
+        if op['k'] == 'remove':
+            removed_once |= set(op.get('gone', []))
     for op in sc['ops']:
         if op['k'] != 'add':
             continue
         for lx in op['res']['lexicons']:
-            if f"{lx['id']}:{lx['version']}" in installed or not lx.get('extends'):
+            spec = f"{lx['id']}:{lx['version']}"
+            if not lx.get('extends') or (spec in installed and spec not in removed_once):
                 continue
             for e in lx.get('entries', []):
                 if not e.get('external'):
